@@ -156,3 +156,130 @@ func VerifC13Reject() {
 	verif.Assert("unknown-setting-rejected-at-compile-time", err != nil)
 	verif.Reach("end")
 }
+
+// ---- Go structures vs. what a JSON document of the same spec holds ----
+
+// a pattern as a Go program writes it (Go-typed values), and as the JSON rendering of the same pattern reads
+var c13GoPatterns = [][2]interface{}{
+	{map[string]interface{}{"tags": []string{"a"}}, map[string]interface{}{"tags": []interface{}{"a"}}},
+	{map[string]string{"a": "?x"}, map[string]interface{}{"a": "?x"}},
+	{map[string]interface{}{"a": map[string]string{"k": "v"}}, map[string]interface{}{"a": map[string]interface{}{"k": "v"}}},
+	{map[string]interface{}{"n": 3}, map[string]interface{}{"n": 3.0}},
+	{[]string{"a", "?x"}, []interface{}{"a", "?x"}},
+	{map[string]interface{}{"xs": []int{1, 2}}, map[string]interface{}{"xs": []interface{}{1.0, 2.0}}},
+}
+
+var c13GoMessages = []interface{}{
+	map[string]interface{}{"tags": []interface{}{"a", "b"}},
+	map[string]interface{}{"a": "v"},
+	map[string]interface{}{"a": map[string]interface{}{"k": "v", "j": 1.0}},
+	map[string]interface{}{"n": 3.0},
+	[]interface{}{"a", "b"},
+	map[string]interface{}{"xs": []interface{}{2.0, 1.0, 3.0}},
+}
+
+// VerifC13GoValues: the same specification given as Go structures (inline patterns holding Go-typed values:
+// []string, map[string]string, int, []int) and as the JSON rendering of those patterns compiles to the same
+// patterns and behaves the same, under either pattern syntax setting.
+func VerifC13GoValues() {
+	verif.MapOrderInsertion(true)
+	i := verif.Choose("pattern", len(c13GoPatterns))
+	syntax := []string{"", "json"}[verif.Choose("syntax", 2)]
+	asGo := c13Spec(syntax, c13GoPatterns[i][0], nil)
+	asJSON := c13Spec(syntax, c13GoPatterns[i][1], nil)
+	ctx := context.Background()
+	e1 := asGo.Compile(ctx, nil, false)
+	e2 := asJSON.Compile(ctx, nil, false)
+	verif.Assert("both-representations-compile", e1 == nil && e2 == nil)
+	if e1 != nil || e2 != nil {
+		return
+	}
+	p1 := asGo.Nodes["start"].Branches.Branches[0].Pattern
+	p2 := asJSON.Nodes["start"].Branches.Branches[0].Pattern
+	verif.Assert("same-compiled-pattern-from-go-values", verif.JSONEqual(p1, p2))
+	msg := c13GoMessages[verif.Choose("message", len(c13GoMessages))]
+	st := &State{NodeName: "start", Bs: match.NewBindings()}
+	w1, _ := asGo.Walk(ctx, st, []interface{}{msg}, nil, nil)
+	w2, _ := asJSON.Walk(ctx, st.Copy(), []interface{}{msg}, nil, nil)
+	verif.Assert("walks-return", w1 != nil && w2 != nil)
+	if w1 != nil && w2 != nil {
+		t1, t2 := w1.To(), w2.To()
+		verif.Assert("same-movement-from-go-values", (t1 == nil) == (t2 == nil))
+		if t1 != nil && t2 != nil {
+			verif.Assert("same-node-from-go-values", t1.NodeName == t2.NodeName)
+			verif.Assert("same-bindings-from-go-values", verif.JSONEqual(map[string]interface{}(t1.Bs), map[string]interface{}(t2.Bs)))
+		}
+	}
+	verif.Reach("go-values-done")
+}
+
+// ---- sources: what is compiled is decided by (interpreter, source), never by the source text alone ----
+
+// c13Interp: an interpreter that marks what it compiled with its own name, and binds that name when run.
+type c13Interp struct{ name string }
+
+func (i *c13Interp) Compile(ctx context.Context, code interface{}) (interface{}, error) {
+	return i.name, nil
+}
+
+func (i *c13Interp) Exec(ctx context.Context, bs match.Bindings, props StepProps, code interface{}, compiled interface{}) (*Execution, error) {
+	by, _ := compiled.(string)
+	nbs := bs.Copy()
+	nbs["ranBy"] = i.name
+	nbs["compiledBy"] = by
+	return NewExecution(nbs), nil
+}
+
+// VerifC13Sources: several sources of one spec carry the SAME text under different interpreters (node
+// actions, guards, in any order, one of the interpreters possibly unknown): an unknown interpreter is
+// rejected at compile time whatever was compiled before it, and every action runs under the interpreter
+// its source names.
+func VerifC13Sources() {
+	verif.MapOrderInsertion(true)
+	names := []string{"one", "two", "nope"}
+	first := names[verif.Choose("firstInterpreter", 2)]
+	second := names[verif.Choose("secondInterpreter", 3)]
+	const text = "same text"
+	s := &Spec{Name: "c13s", Nodes: map[string]*Node{}}
+	where := verif.Choose("where", 3)
+	switch where {
+	case 0: // two node actions
+		s.Nodes["start"] = &Node{ActionSource: &ActionSource{Interpreter: first, Source: text},
+			Branches: &Branches{Branches: []*Branch{{Target: "next"}}}}
+		s.Nodes["next"] = &Node{ActionSource: &ActionSource{Interpreter: second, Source: text},
+			Branches: &Branches{Branches: []*Branch{{Target: "stop"}}}}
+	case 1: // two guards in one branch list (compiled in list order)
+		s.Nodes["start"] = &Node{Branches: &Branches{Branches: []*Branch{
+			{Pattern: map[string]interface{}{"never": "matches"}, GuardSource: &ActionSource{Interpreter: first, Source: text}, Target: "stop"},
+			{GuardSource: &ActionSource{Interpreter: second, Source: text}, Target: "stop"}}}}
+	default: // an action and the guard of its branch
+		s.Nodes["start"] = &Node{ActionSource: &ActionSource{Interpreter: first, Source: text},
+			Branches: &Branches{Branches: []*Branch{{GuardSource: &ActionSource{Interpreter: second, Source: text}, Target: "stop"}}}}
+	}
+	s.Nodes["stop"] = &Node{}
+	interps := InterpretersMap{"one": &c13Interp{"one"}, "two": &c13Interp{"two"}}
+	ctx := context.Background()
+	err := s.Compile(ctx, interps, verif.Choose("force", 2) == 1)
+	if second == "nope" {
+		verif.Assert("unknown-interpreter-rejected-whatever-came-before", err != nil)
+		verif.Reach("sources-rejected")
+		return
+	}
+	verif.Assert("known-interpreters-compile", err == nil)
+	if err != nil {
+		return
+	}
+	w, werr := s.Walk(ctx, &State{NodeName: "start", Bs: match.NewBindings()}, nil, &Control{Limit: 5}, nil)
+	verif.Assert("walk-returns", werr == nil && w != nil)
+	if w == nil {
+		return
+	}
+	end := w.To()
+	verif.Assert("machine-reaches-stop", end != nil && end.NodeName == "stop")
+	if end != nil {
+		// the last source executed is the second one: it ran under, and was compiled by, its own interpreter
+		verif.Assert("source-ran-under-its-interpreter", verif.JSONEqual(end.Bs["ranBy"], second))
+		verif.Assert("source-compiled-by-its-interpreter", verif.JSONEqual(end.Bs["compiledBy"], second))
+	}
+	verif.Reach("sources-done")
+}
